@@ -14,9 +14,11 @@ from props import factor_common as fc
 
 PID = "C01"
 GEN = ["primality"]
-LEAN = ["Ymq.Props.C01", "Ymq.Props.C01Closed"]
+LEAN = ["Ymq.Props.C01", "Ymq.Props.C01Closed", "Ymq.Props.C01Closed2"]
 AUDIT = "Ymq.Audit.C01"
-THEOREMS = ['Ymq.C01.factor_sound', 'Ymq.C01.factor_no_one', 'Ymq.C01.retain_residue_one', 'Ymq.C01.combineDiv_prod', 'Ymq.C01.combineDiv_no_panic', 'Ymq.C01.factorImpl_prod', 'Ymq.C01.factor_exact', 'Ymq.C01.oracleOK_of_models', 'Ymq.C01.factor_exact_closed', 'Ymq.C01.factor_total_closed']
+THEOREMS = ['Ymq.C01.factor_sound', 'Ymq.C01.factor_no_one', 'Ymq.C01.retain_residue_one', 'Ymq.C01.combineDiv_prod', 'Ymq.C01.combineDiv_no_panic', 'Ymq.C01.factorImpl_prod', 'Ymq.C01.factor_exact', 'Ymq.C01.oracleOK_of_models', 'Ymq.C01.factor_exact_closed', 'Ymq.C01.factor_total_closed',
+            'Ymq.C01.oracleOK_of_models_v2', 'Ymq.C01.factor_exact_closed_v2', 'Ymq.C01.factor_total_closed_v2', 'Ymq.C01.trial_divided_noSmall',
+            'Ymq.C01.squfofModel_exactSeed', 'Ymq.C01.qs64_model_violates_oracleOK_clause']
 PROFILES = ["release", "chk"]
 TIMEOUT = 120.0
 RULE = ("first, in both tiers, composites with 2 or 3 prime factors of exactly 65, 127..129, 191..193, ..., 447..449, 499, 500 bits (ecm; auto on the 64k sizes); then "
